@@ -146,30 +146,33 @@ func (s *SelectStatement) ToStreamConfig() (*types.Config, string, error) {
 
 	// If no aggregation functions, collect simple fields
 	if !hasAggregation {
-		// If SELECT * query, set special marker
+		// If SELECT * query, set special marker; items written next to "*"
+		// (SELECT *, t AS o5) are collected as well
 		if s.SelectAll {
 			simpleFields = append(simpleFields, "*")
-		} else {
-			for _, field := range otherFields {
-				fieldName := field.Expression
-				if field.Alias != "" {
-					// If has alias, use alias as field name
-					simpleFields = append(simpleFields, fieldName+":"+field.Alias)
+		}
+		for _, field := range otherFields {
+			fieldName := field.Expression
+			if s.SelectAll && fieldName == "*" {
+				continue
+			}
+			if field.Alias != "" {
+				// If has alias, use alias as field name
+				simpleFields = append(simpleFields, fieldName+":"+field.Alias)
+			} else {
+				// For fields without alias, check if it's a string literal
+				_, n, _, _, err := ParseAggregateTypeWithExpression(fieldName)
+				if err != nil {
+					return nil, "", err
+				}
+				// For a function call n is its first argument, not an output
+				// name: upper(s) stays the column "upper(s)", it is not column s
+				if n != "" && extractFunctionName(fieldName) == "" {
+					// If string literal, use parsed field name (remove quotes)
+					simpleFields = append(simpleFields, n)
 				} else {
-					// For fields without alias, check if it's a string literal
-					_, n, _, _, err := ParseAggregateTypeWithExpression(fieldName)
-					if err != nil {
-						return nil, "", err
-					}
-					// For a function call n is its first argument, not an output
-					// name: upper(s) stays the column "upper(s)", it is not column s
-					if n != "" && extractFunctionName(fieldName) == "" {
-						// If string literal, use parsed field name (remove quotes)
-						simpleFields = append(simpleFields, n)
-					} else {
-						// Otherwise use original expression
-						simpleFields = append(simpleFields, fieldName)
-					}
+					// Otherwise use original expression
+					simpleFields = append(simpleFields, fieldName)
 				}
 			}
 		}
